@@ -399,3 +399,25 @@ def run(chk):
     from .c12 import import_parse_contracts
     chk.guard("R8", lambda: import_parse_contracts(chk, "R8"))
 
+    def r9():
+        # the counterpart member of an instruction may be a NAME or a TUPLE INDEX: every parser that looks ahead for an optional leading
+        # member (`<member>, rest`) must use the member look-ahead, not an identifier-only peek
+        from ..tables import ATTR
+        from ..src import walk as _walk
+        chk.rule("R9", "optional leading member of an instruction payload is recognised for names and for tuple indices (peek_member, not peek(Ident))", floor=2)
+        n = 0
+        for fi in chk.repo.fns(ATTR):
+            k = 0
+            for node in _walk(fi.body):
+                if node["k"] == "Binary" and node["op"] == "&&" and re.search(r"\.peek2\(Token!\[,\]\)|\.peek2\(Token!\(,\)\)", render(node["r"]).replace(" ", "")):
+                    lhs = render(node["l"]).replace(" ", "")
+                    n += 1
+                    key = f"{fi.qual}:optional-member#{k}"
+                    k += 1
+                    good = re.fullmatch(r"peek_member\(\w+\)", lhs) is not None
+                    bad = re.fullmatch(r"\w+\.peek\((syn::)?Ident\)", lhs) is not None
+                    chk.shape("R9", key, good, bad, ATTR, node["line"], what="an identifier-only look-ahead: `instr(<tuple index>, ..)` is no longer read as a rename to that member (the index is swallowed by the rest of the payload)",
+                              expected="peek_member(input) && input.peek2(Token![,])", found=lhs)
+        if n < 2:
+            chk.inconc("R9", f"only {n} optional-member look-aheads found in attr.rs (2 confirmed by hand: AsAttr::parse, try_parse_optional_ident)")
+    chk.guard("R9", r9)
